@@ -2,7 +2,7 @@
     garbage collections, restarts, crashes at the manager's hook points and read operations, each
     with what the Go driver observed; the model (Model/DsManager.v, Model/Gc.v) is run along it. *)
 From Coq Require Import List ZArith NArith Bool.
-From DH Require Import Lib.CheckLib Model.Store Model.FeedSpec Model.DsManager Model.Gc.
+From DH Require Import Lib.CheckLib Model.Store Model.FeedSpec Model.DsManager Model.Gc Model.NameCodec.
 Import ListNotations.
 Open Scope Z_scope.
 
@@ -28,9 +28,25 @@ Inductive cop :=
 | CStale (slot : Z) (ents : list ent) (o : Z)              (* a batch through a handle obtained earlier; 0 stored, 1 no such handle (process restarted) *)
 | CKeep (slot : Z) (start : uri) (pred : option Z) (inverse : bool) (scope : list name) (o : option (list (Z * Z)))
                                                            (* first page of a paged relation query (any limit); the continuation is kept *)
-| CCont (slot : Z) (start : uri) (pred : option Z) (inverse : bool) (o : option (list (Z * Z))).
+| CCont (slot : Z) (start : uri) (pred : option Z) (inverse : bool) (o : option (list (Z * Z)))
+| CHttp (meth : Z) (seg : list Z) (to : name) (o : Z).
                                                            (* all remaining pages of that query, fetched later with the kept continuation *)
+                                                           (* dataset management over HTTP on /datasets/<seg>: 0 DELETE, 1 POST (create),
+                                                              2 PATCH {"ID": to} (rename); o: 0 = 200, 1 = 4xx/5xx, 2 = panic *)
 Definition tcase := list cop.
+
+(** the dataset names of the generated histories (lib/props/c07.py ncode); any other name has code 9 *)
+Definition names_table : list (list Z * Z) :=
+  [ ([99; 111; 114; 101; 46; 68; 97; 116; 97; 115; 101; 116], 0);   (* core.Dataset *)
+    ([97], 1); ([98], 2); ([99], 3); ([100], 4);                       (* a b c d *)
+    ([115; 43; 101], 5);                                               (* s+e *)
+    ([115; 32; 101], 6);                                               (* s e *)
+    ([115; 37; 50; 66; 101], 7) ].                                     (* s%2Be, literally *)
+(** the dataset a request on /datasets/<seg> addresses: the name is the segment percent-decoded ONCE *)
+Definition http_name (seg : list Z) : name :=
+  match pct_decode seg with Some bs => lookup_name names_table bs 9 | None => 9 end.
+Definition http_mop (meth : Z) (seg : list Z) (to : name) : mop :=
+  if Z.eqb meth 0 then MDelete (http_name seg) else if Z.eqb meth 1 then MCreate (http_name seg) else MRename (http_name seg) to.
 
 (** order = order of VARIANTS in lib/props/c07.py *)
 Definition variants : list variant := [ mkv false false; mkv true false; mkv false true; mkv true true ].
@@ -91,6 +107,10 @@ Fixpoint agree_run (v : variant) (h : hub) (a : aux) (ops : list cop) : bool :=
     | CRestart => agree_run v (restart v h) (drop_slots a) ops'
     | CCrash m k => agree_run v (crash_mop v m k h) (drop_slots a) ops'
     | CQuery q oa => answer_matches (obs h q) oa && agree_run v h a ops'
+    | CHttp meth seg to oc =>
+      (* POST on an existing name answers 400 (CreateDataset itself would return the existing dataset) *)
+      let '(h', r) := run_mop v (http_mop meth seg to) h in
+      Z.eqb (if Z.eqb meth 1 && has_name (http_name seg) (h_names h) then 1 else outcome_code r) oc && agree_run v h' a ops'
     | CHold slot n oc =>
       match assoc n (h_names h) with
       | Some i => Z.eqb oc 0 && agree_run v h {| a_slots := (slot, i) :: a_slots a; a_conts := a_conts a |} ops'
@@ -180,6 +200,10 @@ Fixpoint spec_run (cands : list scand) (ops : list cop) : bool :=
       | CRestart => spec_run (map (fun c => (fst c, [])) cands) ops'
       | CCrash m k => spec_run (map (fun c => (fst c, [])) cands ++ map (fun c => (s_mop m (fst c), [])) cands) ops'
       | CQuery q oa => spec_run (filter (fun c => answer_matches (sobs (fst c) q) oa) cands) ops'
+      | CHttp meth seg to oc =>
+        let m := http_mop meth seg to in
+        spec_run (map (fun c => (s_mop m (fst c), sh_mop m (fst c) (snd c)))
+                      (filter (fun c => Z.eqb (if Z.eqb meth 1 && s_has (http_name seg) (fst c) then 1 else s_outcome m (fst c)) oc) cands)) ops'
       | CHold slot n oc =>
         spec_run (map (fun c => if s_has n (fst c) then (fst c, (slot, Some n) :: snd c) else c)
                       (filter (fun c => Z.eqb (if s_has n (fst c) then 0 else 1) oc) cands)) ops'
@@ -220,6 +244,7 @@ Fixpoint first_bad (v : variant) (h : hub) (a : aux) (ops : list cop) (i : N) : 
       let h' := match o with
                 | CWrite n ents _ => fst (write v n ents h)
                 | CMop m _ => fst (run_mop v m h)
+                | CHttp meth seg to _ => fst (run_mop v (http_mop meth seg to) h)
                 | CGc _ _ => gc h
                 | CRestart => restart v h
                 | CCrash m k => crash_mop v m k h
